@@ -48,6 +48,7 @@ type vWorld struct {
 	countStatus   bool            // GetDeployStatus answers with recorded + in-progress counts (C13)
 	onStep        func()          // observer called at every intercepted call (C13)
 	planned       map[string]int  // node -> instances the deployment asked the resource manager for
+	removalBegan  bool            // some workload's removal has released its usage (the removal phase has begun)
 	delRefused    map[string]bool // nodes whose DeleteProcessing was the injected failure
 }
 
@@ -64,6 +65,9 @@ func (w *vWorld) fault(site string) bool {
 		w.siteCalls[site]++
 		if w.siteFaults[site] != nil && w.siteFaults[site][w.siteCalls[site]] {
 			w.site += site + ";"
+			if w.crashMode {
+				w.frozen = true
+			}
 			return true
 		}
 		return false
@@ -162,6 +166,7 @@ func (m *vRmgr) SetNodeResourceUsage(_ context.Context, node string, _ resourcet
 		m.w.addUsage(node, sum)
 	default:
 		m.w.addUsage(node, -sum)
+		m.w.removalBegan = true
 	}
 	vMu.Lock()
 	defer vMu.Unlock()
